@@ -247,9 +247,15 @@ func (fg *FG) call0(st *State, cc *ssa.CallCommon, in ssa.Instruction, resultOf 
 	// proof steps of the caller's contract attached to this callee
 	if fg.c != nil && fg.c.Before != nil {
 		steps := fg.c.Before[c.Key]
+		if len(steps) > 0 {
+			fg.beforeHit[c.Key] = true
+		}
 		if len(steps) == 0 {
 			// allow the unqualified key for same-package callees
 			steps = fg.c.Before[strings.TrimPrefix(c.Key, fg.c.Pkg+".")]
+			if len(steps) > 0 {
+				fg.beforeHit[strings.TrimPrefix(c.Key, fg.c.Pkg+".")] = true
+			}
 		}
 		if len(steps) > 0 {
 			benv := env.child()
@@ -854,6 +860,10 @@ func (fg *FG) frameCheckEntry(st *State, m modEntry, in ssa.Instruction) {
 	}
 	var alts []string
 	alts = append(alts, fmt.Sprintf("(>= %s %s)", l.Ref, fg.alloc0))
+	if l.Kind != LGhost {
+		// nothing can be written through a nil reference (the write would panic first)
+		alts = append(alts, fmt.Sprintf("(= %s 0)", l.Ref))
+	}
 	if m.elems {
 		// an empty region writes nothing
 		alts = append(alts, fmt.Sprintf("(>= %s %s)", m.lo, m.hi))
